@@ -93,9 +93,55 @@ pub struct Recorder {
     pub only_case: Option<u64>,
 }
 
+/// Number of cases completed so far and where to leave a note when a panic happens: if the code
+/// under test aborts the process (a panic that cannot unwind), `crash.txt` names the case in
+/// progress and the panic message, so the violation report can point at one regenerable case.
+pub static CASES_DONE: std::sync::atomic::AtomicU64 = std::sync::atomic::AtomicU64::new(0);
+static RECENT_PANICS: std::sync::Mutex<Vec<String>> = std::sync::Mutex::new(Vec::new());
+pub static CRASH_NOTE: std::sync::Mutex<Option<String>> = std::sync::Mutex::new(None);
+
+pub fn install_panic_note_hook() {
+    std::panic::set_hook(Box::new(|info| {
+        let path = match CRASH_NOTE.try_lock() {
+            Ok(g) => g.clone(),
+            Err(_) => None,
+        };
+        if let Some(path) = path {
+            let msg = if let Some(s) = info.payload().downcast_ref::<&str>() {
+                s.to_string()
+            } else if let Some(s) = info.payload().downcast_ref::<String>() {
+                s.clone()
+            } else {
+                "panic".to_string()
+            };
+            let loc = info.location().map(|l| format!("{}:{}", l.file(), l.line())).unwrap_or_default();
+            let n = CASES_DONE.load(std::sync::atomic::Ordering::SeqCst);
+            // the newest note first (the last panic before an abort is usually the secondary
+            // "panic in a destructor"; the one before it is the cause)
+            let line = format!("case={} at={} msg={}", n, loc, msg.replace('\n', " "));
+            let mut all = line;
+            if let Ok(mut recent) = RECENT_PANICS.try_lock() {
+                for r in recent.iter().rev().take(3) {
+                    all.push_str(" <= ");
+                    all.push_str(r);
+                }
+                let keep = all.split(" <= ").next().unwrap_or("").to_string();
+                recent.push(keep);
+                if recent.len() > 8 {
+                    recent.remove(0);
+                }
+            }
+            let _ = std::fs::write(&path, format!("{}\n", all));
+        }
+    }));
+}
+
 impl Recorder {
     pub fn new(dir: &str, only_case: Option<u64>) -> Self {
         std::fs::create_dir_all(dir).unwrap();
+        let _ = std::fs::remove_file(format!("{}/crash.txt", dir));
+        *CRASH_NOTE.lock().unwrap() = Some(format!("{}/crash.txt", dir));
+        CASES_DONE.store(0, std::sync::atomic::Ordering::SeqCst);
         let f = |n: &str| std::io::BufWriter::new(std::fs::File::create(format!("{}/{}", dir, n)).unwrap());
         Recorder {
             cases: f("cases.txt"),
@@ -125,6 +171,7 @@ impl Recorder {
     }
     pub fn skip(&mut self) {
         self.n += 1;
+        CASES_DONE.store(self.n, std::sync::atomic::Ordering::SeqCst);
     }
     /// One case: the request line for the model driver, the implementation's observation in the
     /// same rendering, the oracle's verdict on the implementation, and whether the case is
@@ -157,6 +204,7 @@ impl Recorder {
             self.samples.push(format!("{} => {}", r, o));
         }
         self.n += 1;
+        CASES_DONE.store(self.n, std::sync::atomic::Ordering::SeqCst);
     }
     /// model-only case without oracle (pure correspondence)
     pub fn corr(&mut self, request: &str, observed: &str, nontrivial: Option<u64>) {
